@@ -59,16 +59,13 @@ theorem C10_fail_before_write_encodable (cfg : Cfg) (meth url : Str) (hs : List 
 example : (payload (.iter [.str [0xE9], .bytes [1, 2]] true)).isSome = true := by decide
 example : serialize c10cfg (lit "P T") (lit "/") [] (.iter [.str [0xE9]] true) false = .error .valueError := by decide
 
-/-
-Full statement: for every accepted input the permissive parser reads the bytes written back as
-exactly one request head with the requested method, the requested target (`url or '/'`) and the
-buffered header list (values up to optional white space at the edges, folds kept verbatim); what
-follows the blank line is exactly what the body phase wrote.  It needs `meth ≠ ""`: the token check
-is a *search* for a non-token character, so the empty method passes and the request line starts
-with a space (`C10_empty_method_witness`).
--/
-theorem C10_one_request_partial (cfg : Cfg) (meth url : Str) (hs : List (Str × Str)) (body : Body) (ch : Bool)
-    (w : Bytes) (hm : meth ≠ []) (h : serialize cfg meth url hs body ch = .ok w) :
+/-- For every accepted input the permissive parser reads the bytes written back as exactly one request
+head with the requested method, the requested target (`url or '/'`) and the buffered header list
+(values up to optional white space at the edges, folds kept verbatim); what follows the blank line is
+exactly what the body phase wrote.  (Full statement: `putrequest` rejects the empty method, so no
+hypothesis on the method is needed — `C10_empty_method_rejected`.) -/
+theorem C10_one_request (cfg : Cfg) (meth url : Str) (hs : List (Str × Str)) (body : Body) (ch : Bool)
+    (w : Bytes) (h : serialize cfg meth url hs body ch = .ok w) :
     ∃ p, prepare cfg meth url hs body ch = .ok p ∧
       strictParse w = some ⟨meth, urlOrSlash url, p.hdrs.map (fun h => (h.1, trimOWS h.2)), (bodyPhase p).written⟩ := by
   unfold serialize request at h
@@ -81,15 +78,26 @@ theorem C10_one_request_partial (cfg : Cfg) (meth url : Str) (hs : List (Str × 
     · simp at h
       subst h
       obtain ⟨hrl, hl⟩ := prepare_legal hp
-      exact ⟨p, rfl, strictParse_prepared p meth url hrl hl hm _⟩
+      exact ⟨p, rfl, strictParse_prepared p meth url hrl hl _⟩
 
 example : (serialize c10cfg (lit "GET") (lit "/") [(lit "X", [97, 13, 10, 32, 98])] .none false).toOption.isSome = true := by
   decide
 
-theorem C10_empty_method_witness :
-    (serialize c10cfg [] (lit "/") [] .none false).toOption.isSome = true ∧
-    (serialize c10cfg [] (lit "/") [] .none false).toOption.bind strictParse = none := by
+/-- the empty method (which passes the token *search*) is refused before anything is written — the
+input on which the unrepaired code wrote the unparseable request line `" / HTTP/1.1"` -/
+theorem C10_empty_method_rejected :
+    serialize c10cfg [] (lit "/") [] .none false = .error .valueError ∧
+    wireWritten c10cfg [] (lit "/") [] .none false = [] := by
   decide
+
+/-- … and in general: an accepted method is a non-empty string of token characters -/
+theorem C10_method_token (cfg : Cfg) (meth url : Str) (hs : List (Str × Str)) (body : Body) (ch : Bool)
+    (p : Prepared) (h : prepare cfg meth url hs body ch = .ok p) :
+    meth ≠ [] ∧ ∀ c ∈ meth, isTokenC c = true := by
+  obtain ⟨hrl, _⟩ := prepare_legal h
+  exact ⟨hrl.ne, by simpa [List.all_eq_true] using hrl.tok⟩
+
+example : (prepare c10cfg (lit "GET") (lit "/") [] .none false).toOption.isSome = true := by decide
 
 /-- accepted header lines can never break out of their line: every CR / LF inside a buffered header
 line is followed by SP / HTAB (a fold), and no line starts with white space -/
@@ -135,11 +143,11 @@ example : encodeTarget (lit "/a b\r\n?x y#frag") = .ok (lit "/a%20b%0D%0A?x%20y"
 
 /-- … and so is the target of every request `HTTPConnectionPool.urlopen` writes for an origin-form URL -/
 theorem C10_pool_target_clean (cfg : Cfg) (meth t : Str) (hs : List (Str × Str)) (body : Body) (ch : Bool) (w : Bytes)
-    (hm : meth ≠ []) (hv : ∀ c ∈ t, c < 0x110000) (h : poolSerialize cfg meth t hs body ch = .ok w) :
+    (hv : ∀ c ∈ t, c < 0x110000) (h : poolSerialize cfg meth t hs body ch = .ok w) :
     ∃ r, strictParse w = some r ∧ r.method = meth ∧ ∀ c ∈ r.target, 0x20 < c ∧ c < 0x7f ∧ c ≠ 35 := by
   unfold poolSerialize at h
   obtain ⟨t', ht, h⟩ := bind_ok h
-  obtain ⟨p, _, hp⟩ := C10_one_request_partial cfg meth t' hs body ch w hm h
+  obtain ⟨p, _, hp⟩ := C10_one_request cfg meth t' hs body ch w h
   refine ⟨_, hp, rfl, ?_⟩
   intro c hc
   simp only [urlOrSlash] at hc
@@ -147,14 +155,12 @@ theorem C10_pool_target_clean (cfg : Cfg) (meth t : Str) (hs : List (Str × Str)
   · simp at hc; subst hc; decide
   · exact encodeTarget_clean t t' hv ht c hc
 
-/-
-Full statement: an accepted HTTP/2 field name consists of lower-case RFC 9113 token characters only
-and an accepted value has no NUL / CR / LF and no white space at its edges.  The name half does NOT
-hold: the pattern ends in `$`, which also matches before one trailing line feed
-(`C10_h2_trailing_lf_witness`).
--/
-theorem C10_h2_header_validity_partial (name value : Str) (n v : Bytes) (h : h2Putheader name value = .ok (n, v)) :
-    (∀ c ∈ n, isH2NameC c = true ∨ c = 10) ∧ n ≠ [] ∧
+/-- An accepted HTTP/2 field name consists of lower-case RFC 9113 token characters only (and is not
+empty) and an accepted value has no NUL / CR / LF and no white space at its edges.  (Full statement:
+the name pattern ends in `\Z`, so a trailing line feed is not accepted any more —
+`C10_h2_trailing_lf_rejected`.) -/
+theorem C10_h2_header_validity (name value : Str) (n v : Bytes) (h : h2Putheader name value = .ok (n, v)) :
+    (∀ c ∈ n, isH2NameC c = true) ∧ n ≠ [] ∧
     (∀ c ∈ v, c ≠ 0 ∧ c ≠ 10 ∧ c ≠ 13) ∧ (∀ c, v.head? = some c → isWS c = false) ∧
     (∀ c, v.getLast? = some c → isWS c = false) := by
   unfold h2Putheader at h
@@ -178,17 +184,7 @@ theorem C10_h2_header_validity_partial (name value : Str) (n v : Bytes) (h : h2P
           obtain ⟨hne, hall⟩ := hname
           obtain ⟨⟨hany, hhead⟩, hlast⟩ := hval
           refine ⟨?_, ?_, ?_, ?_, ?_⟩
-          · intro c hc
-            by_cases hl : (lowerBytes n0).getLast? = some 10
-            · simp only [hl, if_true] at hall
-              have hd := dropLast_append_of_getLast? _ 10 hl
-              rw [← hd] at hc
-              simp only [List.mem_append, List.mem_singleton] at hc
-              rcases hc with hc | hc
-              · exact Or.inl (hall c hc)
-              · exact Or.inr hc
-            · simp only [hl, if_false] at hall
-              exact Or.inl (hall c hc)
+          · exact hall
           · intro e
             simp [e] at hne
           · intro c hc
@@ -206,6 +202,7 @@ theorem C10_h2_header_validity_partial (name value : Str) (n v : Bytes) (h : h2P
 
 example : h2Putheader (lit "X-A") (lit "v") = .ok (lit "x-a", lit "v") := by decide
 
-theorem C10_h2_trailing_lf_witness : h2Putheader [97, 10] [118] = .ok ([97, 10], [118]) := by decide
+/-- the field name `"a\n"`, which the unrepaired pattern (`…+$`) accepted, is refused -/
+theorem C10_h2_trailing_lf_rejected : h2Putheader [97, 10] [118] = .error .valueError := by decide
 
 end U3.Props
